@@ -226,6 +226,53 @@ def desugar(P, f, max_sites=24):
         if b.get("cleanup") or t["k"] != "call" or t.get("target") is None or t.get("dest") is None:
             continue
         fnm = short(t["func"].get("res_path") or t["func"].get("path") or "")
+        if (t["func"].get("trait") or "").startswith("core::ops::function::Fn") and len(t["args"]) == 2 and \
+                t["args"][0].get("k") in ("copy", "move") and t["args"][1].get("k") in ("copy", "move") and not t["args"][1]["pl"]["p"]:
+            # a direct call of a local closure (`f(parser)` inside an inlined `with_restored_depth(.., f)` helper): splice its body in
+            clo_op = t["args"][0]
+            g = closure_of(clo_op, t)
+            if g is None:
+                # a generic `f: F` inside an inlined helper: follow the moves back to where the closure value was built
+                cur, hops = clo_op["pl"]["l"], 0
+                while g is None and hops < 8:
+                    hops += 1
+                    defs = [s2 for b2 in blocks for s2 in b2["stmts"] if s2["k"] == "assign" and not s2["pl"]["p"] and s2["pl"]["l"] == cur]
+                    if len(defs) != 1:
+                        break
+                    rv2 = defs[0]["rv"]
+                    if rv2["k"] == "aggr" and rv2.get("ak") == "closure":
+                        for cand in (rv2.get("closure"), "bin/" + str(rv2.get("closure"))):
+                            if cand in P.fns and (cand.startswith("bin/") == (f.target == "bin")):
+                                g = P.fns[cand]
+                        break
+                    if rv2["k"] == "use" and rv2["op"].get("k") in ("copy", "move") and not rv2["op"]["pl"]["p"]:
+                        cur = rv2["op"]["pl"]["l"]
+                        continue
+                    break
+            if g is None:
+                # the callee is often a reference to the closure: look at what the reference points to
+                src = None
+                for b2 in blocks:
+                    for s2 in b2["stmts"]:
+                        if s2["k"] == "assign" and not s2["pl"]["p"] and s2["pl"]["l"] == clo_op["pl"]["l"] and s2["rv"]["k"] in ("ref", "use"):
+                            src = s2["rv"]["pl"] if s2["rv"]["k"] == "ref" else (s2["rv"]["op"].get("pl") if s2["rv"]["op"].get("k") in ("copy", "move") else None)
+                if src is not None and not src["p"]:
+                    clo_op = {"k": "move", "pl": src, "ty": locals_[src["l"]]["ty"]}
+                    g = closure_of(clo_op, t)
+            if g is not None and len(g.blocks) <= 200 and g.key != f.key and not clo_op["pl"]["p"]:
+                tup = t["args"][1]
+                tty = locals_[tup["pl"]["l"]]["ty"]
+                n_par = g.arg_count - 1
+                e = env_rv(g, clo_op)
+                if e is not None:
+                    ops = [e]
+                    for pi in range(n_par):
+                        pty = g.locals[2 + pi]["ty"]
+                        ops.append({"k": "use", "op": mv(tup["pl"]["l"], pty, [{"f": pi, "n": str(pi), "adt": None, "ty": pty}])})
+                    entry = splice(g, ops, copy.deepcopy(t["dest"]), t["target"], t["span"]["line"], t["span"])
+                    b["term"] = {"k": "goto", "target": entry, "span": t["span"]}
+                    done.append("call:" + g.spath.split("::")[-1])
+            continue
         m = COMB.match(fnm)
         if not m:
             continue
